@@ -60,7 +60,10 @@ class Machine:
         if self._bearing is None:
             direct = set()
             callers = {}
+            scope = getattr(self.A, "scope", None)
             for name, b in self.F.bodies.items():
+                if scope is not None and name not in scope:
+                    continue
                 for bb, t in b.calls():
                     if self.A.is_event_callee(t):
                         direct.add(name)
@@ -72,6 +75,8 @@ class Machine:
             while dq:
                 x = dq.popleft()
                 for c in callers.get(x, ()):
+                    if scope is not None and c not in scope:
+                        continue
                     if c not in bearing:
                         bearing.add(c)
                         dq.append(c)
@@ -131,6 +136,18 @@ class Machine:
         if p is None:
             return TOP
         if p["p"]:
+            base = env.get(p["l"])
+            if base is None:
+                return TOP
+            pr = p["p"]
+            # payload of a tagged value: (x as Variant).0
+            if base[0] == "t" and len(pr) == 2 and isinstance(pr[0], dict) and "dc" in pr[0] and isinstance(pr[1], dict) and pr[1].get("f") == 0:
+                if _VARIANT_INDEX.get(base[1]) == pr[0]["dc"] and base[2] is not None:
+                    return base[2]
+                return TOP
+            # element of a small buffer whose (single) element value is known
+            if base[0] == "i" and len(pr) == 1 and isinstance(pr[0], dict) and ("i" in pr[0] or "ci" in pr[0]):
+                return base
             return TOP
         v = env.get(p["l"])
         if v is not None:
@@ -168,13 +185,16 @@ class Machine:
                 return TOP
             v = env.get(p["l"])
             if v and v[0] == "t":
-                return ("i", 0 if v[1] in ("Ok", "Continue") else 1)
+                return ("i", _VARIANT_INDEX[v[1]])
             return TOP
         if k == "agg" and r.get("ak") == "adt":
-            if r["adt"] == "std::result::Result":
-                return ("t", r["vname"])
-            if r["adt"] == "std::ops::ControlFlow":
-                return ("t", r["vname"])
+            if r["adt"] in ("std::result::Result", "std::ops::ControlFlow", "std::option::Option"):
+                pay = None
+                if len(r["ops"]) == 1 and _derived(env, r["ops"][0]):
+                    pv = self.val(body, env, r["ops"][0])
+                    if pv and pv[0] == "i":
+                        pay = pv
+                return ("t", r["vname"], pay)
         return TOP
 
     # ---- one block ---------------------------------------------------------------------------
@@ -244,7 +264,7 @@ class Machine:
             d = ct["dest"]
             if not d["p"]:
                 if tagv is not None:
-                    cenv[d["l"]] = ("t", tagv)
+                    cenv[d["l"]] = tag
                 elif tag and tag[0] == "i":
                     cenv[d["l"]] = tag
                 else:
@@ -259,17 +279,29 @@ class Machine:
             d = t["dest"]
             ev = self.A.event(self, body, bb, t)
             if ev is not None:
-                label, slot = ev
+                if isinstance(ev, tuple):
+                    label, slot = ev
+                    dl = d["l"] if not d["p"] else None
+                    binder = (lambda v, dl=dl: ({dl: ("i", v)} if (v is not None and dl is not None) else {})) if slot else None
+                    ev = [(label, binder)]
                 where = "%s (%s:%s)" % (fn.replace("preflate_rs::", ""), body.file, t.get("line"))
-                self.sites.setdefault(label, set()).add(where)
-                self.event_sites.add((fn, bb))
-                self.site_info[where] = (fn, bb)
                 if tgt is None:
                     return []
-                e2 = dict(env)
-                if not d["p"]:
-                    e2.pop(d["l"], None)
-                return [("event", label, where, (d["l"] if (slot and not d["p"]) else None), nxt(tgt, e2))]
+                out = []
+                for label, binder in ev:
+                    e2 = dict(env)
+                    if not d["p"]:
+                        e2.pop(d["l"], None)
+                    if label is None:
+                        for l, v in (binder(None) if binder else {}).items():
+                            e2[l] = v
+                        out.append(("eps", nxt(tgt, e2)))
+                        continue
+                    self.sites.setdefault(label, set()).add(where)
+                    self.event_sites.add((fn, bb))
+                    self.site_info[where] = (fn, bb)
+                    out.append(("event", label, where, binder, nxt(tgt, e2)))
+                return out
             name = strip_generics(callee_def(t))
             lc = self.local_callee(t)
             if lc and lc in self.bearing():
@@ -290,15 +322,15 @@ class Machine:
             if name.endswith("Try::branch"):
                 a = self.val(body, env, t["args"][0]) if _derived(env, t["args"][0]) else TOP
                 if a and a[0] == "t":
-                    newv = ("t", "Continue" if a[1] == "Ok" else "Break")
+                    newv = ("t", "Continue" if a[1] == "Ok" else "Break", a[2])
             elif name.endswith("from_residual"):
-                newv = ("t", "Err")
+                newv = ("t", "Err", None)
             elif any(name.endswith(x) for x in TAG_PRESERVING):
                 a = self.val(body, env, t["args"][0]) if _derived(env, t["args"][0]) else TOP
                 if a and a[0] == "t":
                     newv = a
             elif lc and self.always_err(lc):
-                newv = ("t", "Err")
+                newv = ("t", "Err", None)
             if not d["p"]:
                 if newv is TOP:
                     e2.pop(d["l"], None)
@@ -346,21 +378,27 @@ class Machine:
         return r
 
 
+_VARIANT_INDEX = {"Ok": 0, "Err": 1, "Continue": 0, "Break": 1, "None": 0, "Some": 1}
+
+
 def _derived(env, op):
     """Is the operand a local the interpreter has knowledge about, or a literal constant?"""
     k = op_const(op)
     if k is not None and isinstance(k, dict) and "ty" in k:
         return True
     p = op_place(op)
-    return p is not None and not p["p"] and p["l"] in env
+    return p is not None and p["l"] in env
 
 
-def bind(frames, slot, value):
-    if slot is None or value is None:
+def bind(frames, binder, value):
+    if binder is None:
+        return frames
+    upd = binder(value)
+    if not upd:
         return frames
     fn, bb, envt = frames[-1]
     env = dict(envt)
-    env[slot] = ("i", value)
+    env.update(upd)
     return frames[:-1] + ((fn, bb, tuple(sorted(env.items()))),)
 
 
